@@ -158,7 +158,7 @@ CHECKS["C16"] = {
 
 EXACT_V = ["itv", "sdbm", "dbm", "soct", "lift"]
 CHECKS["C12"] = {
-    "jobs": [job("h_exact-" + v, 15000, 3, 20000, 3, fuzz_secs=0) for v in EXACT_V],
+    "jobs": [job("h_exact-" + v, 15000, 3, 120000, 6, fuzz_secs=0) for v in EXACT_V],
     "rule": "part A (model based): histories of 1-16 steps over 4 abstract values and <=4 variables inside the box [-B,B]^n (B<=4, optionally shifted by "
             "per-variable offsets up to 2^40 to exercise large constants): assume of 1-3 constraints of the domain's own language (+-x<=k; x-y<=k for "
             "zones; +-x+-y<=k for octagons; several syntactic forms, == included), join, meet, forget/project, copy, normalize/minimize, for "
